@@ -3,6 +3,9 @@
    execApplyBlock, execValidate (= Types.validate), State.NextState (= Types.next_state), plus the
    on-disk cache files of pkg/cache (LoadFromDisk at start, SaveToDisk at shutdown).
    Shared by C01 (valid chain / never wedges) and C04 (crash recovery).
+   Models the tree AFTER the repairs a489023 (an empty batch older than the last block is skipped),
+   46e0134 (state written before the store height), d2502c2 (cache files written atomically) and
+   3873d52 (ValidateBasic binds the signer address to the signer key).
    Durable state is a Base/KV image; every action returns the ordered list of atomic writes it
    performs; a crash keeps a prefix of that list and loses the volatile state.
    The block store is abstracted to one record per height (C14 proves that SaveBlockData is one
@@ -79,7 +82,7 @@ Inductive outcome :=
 | OErrValidate         (* "failed to validate block" *)
 | ONotRunning          (* no process *)
 | OBootOk | OBootFailInit | OBootFailGenesis | OBootFailCache   (* NewManager *)
-| OCrashed | OStopped.
+| OCrashed | OStopped | OTampered.
 
 (* ExecuteTxs(txs, height, time, prevStateRoot) as seen by the execution layer *)
 Definition ecall : Type := (N * list tx * Z * root)%type.
@@ -87,7 +90,7 @@ Definition ecall : Type := (N * list tx * Z * root)%type.
 (* result of one action *)
 Record ares := {
   a_pre : list wr;                 (* writes before the commit group *)
-  a_commit : list wr;              (* the commit group: store height, then state *)
+  a_commit : list wr;              (* the commit group: state, then store height *)
   a_vol : option vol;              (* volatile state afterwards (None = no running process) *)
   a_out : outcome;
   a_call : option ecall;           (* the ExecuteTxs call made, if any *)
@@ -186,7 +189,7 @@ Definition finish (c : cfg) (m : img) (v : vol) (b : blk) (ws0 : list wr)
       if validate (v_state v) (b_sh fb) (b_data fb)                                     (* manager.go:707 *)
       then let s' := next_state (v_state v) h r in
            {| a_pre := ws0 ++ [w_block (h_height h) fb];                                (* manager.go:715 *)
-              a_commit := set_height m (h_height h) ++ [w_state s'];                    (* manager.go:722, 729 *)
+              a_commit := [w_state s'] ++ set_height m (h_height h);                    (* manager.go: updateState, then SetHeight (fix 46e0134) *)
               a_vol := Some {| v_state := s'; v_cursor := v_cursor v |};
               a_out := OCommitted (h_height h); a_call := call; a_req := req; a_init := None; a_built := bu |}
       else {| a_pre := ws0; a_commit := []; a_vol := Some v; a_out := OErrValidate; a_call := call; a_req := req;
@@ -214,7 +217,8 @@ Definition step (c : cfg) (m : img) (v : vol) (s : seqresp) (e : execresp) : are
               let w1 := [w_cursor cur] in                                               (* manager.go:574 *)
               let nonempty := match txs with [] => false | _ => true end in
               let before := match ltime with Some lt => (ts <? lt)%Z | None => false end in
-              if nonempty && before then quiet v' w1 OErrTime req                       (* manager.go:665: only for non-empty batches *)
+              if nonempty && before then quiet v' w1 OErrTime req                       (* non-empty batch older than the last block: error *)
+              else if before then quiet v' w1 OSkipped req                              (* empty batch older than the last block: skipped, nothing saved (fix a489023) *)
               else if negb (addr_eqb (c_gaddr c) (Addr (c_key c))) then quiet v' w1 OErrProposer req   (* manager.go:849 *)
               else
                 let eb := early_block c v n lsig lhdr txs ts in
@@ -227,21 +231,26 @@ Definition step (c : cfg) (m : img) (v : vol) (s : seqresp) (e : execresp) : are
 Record mach := {
   img_of : img;
   vol_of : option vol;
-  files_ok : bool;                                  (* cache files absent or complete *)
+  bad_files : list nat;                             (* cache files (0..7) that are neither absent nor complete; only [ITamper] makes one *)
   g_inits : list root;                              (* roots InitChain returned *)
   g_built : list (N * list tx * Z);                 (* (height, txs, timestamp) of every block built (genesis or from a batch) *)
   g_execs : list (N * list tx * Z * root * root)    (* successful ExecuteTxs calls: height, txs, time, previous root, returned root *)
 }.
 
 Definition fresh : mach :=
-  {| img_of := []; vol_of := None; files_ok := true; g_inits := []; g_built := []; g_execs := [] |}.
+  {| img_of := []; vol_of := None; bad_files := []; g_inits := []; g_built := []; g_execs := [] |}.
+
+Definition files_ok (st : mach) : bool := match bad_files st with [] => true | _ => false end.
 
 Inductive act := ABoot (ic : option root) | AStep (s : seqresp) (e : execresp).
 
 Inductive item :=
 | IRun (a : act)                (* the action runs to completion (a boot discards any running process first) *)
 | ICrash (a : act) (k : nat)    (* the process dies after [k] atomic writes of the action *)
-| IStop (torn : bool).          (* shutdown: SaveCache rewrites the cache files in place; [torn] = the process dies while a file is partly written *)
+| IStop (cut : option nat)      (* shutdown: SaveCache writes each of the 8 cache files to a temporary file and renames it over the
+                                   target (fix d2502c2); [Some j] = the process dies after j files were renamed (a partly written
+                                   temporary file may stay behind): every cache file is old-complete or new-complete *)
+| ITamper (f : nat).            (* NOT a crash: cache file f is truncated in place by hand (malformed stream) *)
 
 Definition not_running (st : mach) : ares :=
   {| a_pre := []; a_commit := []; a_vol := None; a_out := ONotRunning; a_call := None; a_req := None; a_init := None; a_built := None |}.
@@ -276,24 +285,32 @@ Definition exec_item (c : cfg) (st : mach) (i : item) : mach * iout :=
   match i with
   | IRun a =>
       let r := do_act c st a in
-      ({| img_of := apply_writes (img_of st) (a_ws r); vol_of := a_vol r; files_ok := files_ok st;
+      ({| img_of := apply_writes (img_of st) (a_ws r); vol_of := a_vol r; bad_files := bad_files st;
           g_inits := log_opt (g_inits st) (a_init r); g_built := log_opt (g_built st) (a_built r);
           g_execs := log_execs (g_execs st) r a |},
        {| o_res := a_out r; o_call := a_call r; o_req := a_req r; o_ws := a_ws r |})
   | ICrash a k =>
       let r := do_act c st a in
-      ({| img_of := crash_after k (img_of st) (a_ws r); vol_of := None; files_ok := files_ok st;
+      ({| img_of := crash_after k (img_of st) (a_ws r); vol_of := None; bad_files := bad_files st;
           g_inits := log_opt (g_inits st) (a_init r); g_built := log_opt (g_built st) (a_built r);
           g_execs := log_execs (g_execs st) r a |},
        {| o_res := OCrashed; o_call := None; o_req := None; o_ws := firstn k (a_ws r) |})
-  | IStop torn =>
+  | IStop cut =>
       match vol_of st with
       | None => (st, {| o_res := ONotRunning; o_call := None; o_req := None; o_ws := [] |})
       | Some _ =>
-          ({| img_of := img_of st; vol_of := None; files_ok := negb torn;
+          ({| img_of := img_of st; vol_of := None;
+              bad_files := match cut with
+                           | None => []                                             (* all eight files rewritten *)
+                           | Some j => filter (fun f => Nat.leb j f) (bad_files st)  (* files 0..j-1 rewritten *)
+                           end;
               g_inits := g_inits st; g_built := g_built st; g_execs := g_execs st |},
            {| o_res := OStopped; o_call := None; o_req := None; o_ws := [] |})
       end
+  | ITamper f =>
+      ({| img_of := img_of st; vol_of := vol_of st; bad_files := f :: bad_files st;
+          g_inits := g_inits st; g_built := g_built st; g_execs := g_execs st |},
+       {| o_res := OTampered; o_call := None; o_req := None; o_ws := [] |})
   end.
 
 Fixpoint run_from (c : cfg) (st : mach) (h : list item) : mach * list iout :=
@@ -311,44 +328,9 @@ Definition outputs (c : cfg) (h : list item) : list iout := snd (run_from c fres
 Definition is_run (i : item) : bool := match i with IRun _ => true | _ => false end.
 Definition crash_free (h : list item) : bool := forallb is_run h.
 
-(* F5: the process dies strictly inside the commit group (store height written, state not) *)
-Definition torn_commit (c : cfg) (st : mach) (i : item) : bool :=
-  match i with
-  | ICrash a k => let r := do_act c st a in
-                  (Nat.ltb (length (a_pre r)) k) && (Nat.ltb k (length (a_ws r)))
-  | _ => false
-  end.
-
-(* F1: an EMPTY batch whose timestamp is earlier than the last block's is taken (no pending block) *)
-Definition early_empty_step (c : cfg) (m : img) (s : seqresp) : bool :=
-  match s with
-  | SBatch [] ts _ =>
-      match g_block m (g_height m + 1), last_info c m (g_height m) with
-      | None, Some (_, _, Some lt) => (ts <? lt)%Z
-      | _, _ => false
-      end
-  | _ => false
-  end.
-Definition early_empty (c : cfg) (st : mach) (i : item) : bool :=
-  match i with
-  | IRun (AStep s _) | ICrash (AStep s _) _ =>
-      match vol_of st with Some _ => early_empty_step c (img_of st) s | None => false end
-  | _ => false
-  end.
-
-(* F6: the process dies while a cache file is partly written *)
-Definition torn_files (st : mach) (i : item) : bool :=
-  match i with IStop true => match vol_of st with Some _ => true | None => false end | _ => false end.
-
-Fixpoint hits (c : cfg) (p : mach -> item -> bool) (st : mach) (h : list item) : bool :=
-  match h with
-  | [] => false
-  | i :: r => p st i || hits c p (fst (exec_item c st i)) r
-  end.
-
-Definition f5_hit (c : cfg) (h : list item) : bool := hits c (torn_commit c) fresh h.
-Definition f1_hit (c : cfg) (h : list item) : bool := hits c (early_empty c) fresh h.
-Definition f6_hit (c : cfg) (h : list item) : bool := hits c torn_files fresh h.
+(* the histories of C04: boots, steps, crashes inside them, clean and cut shutdowns — no hand-made damage *)
+Definition is_tamper (i : item) : bool := match i with ITamper _ => true | _ => false end.
+Definition untampered (h : list item) : bool := forallb (fun i => negb (is_tamper i)) h.
 
 (* a well-formed pair of responses for the next step: a batch not older than the last block, a
    successful execution *)
@@ -390,6 +372,16 @@ Inductive chain (c : cfg) (blocks : N -> option blk) (built : list (N * list tx 
     blocks (n + 1)%N = Some b ->
     block_valid c blocks built execs s b r ->
     chain c blocks built execs r0 (n + 1)%N (next_state s (hdr_of b) r).
+
+(* what holds of the durable image at EVERY instant, also of the image a dead process leaves behind: the
+   chain is valid up to the height of the recorded state, and the store height is that height or (a crash
+   between the state write and the height write) one less — start-up then raises it (manager.go:316) *)
+Definition ChainDurable (c : cfg) (st : mach) : Prop :=
+  let m := img_of st in
+  ((g_height m < c_initial c)%N /\ g_state m = None) \/
+  (exists r0 s, In r0 (g_inits st) /\ chain c (g_block m) (g_built st) (g_execs st) r0 (s_height s) s /\
+                g_state m = Some s /\ (c_initial c <= s_height s)%N /\
+                (s_height s <= g_height m + 1)%N /\ (g_height m <= s_height s)%N).
 
 (* the committed chain of a machine state is valid and agrees with the recorded height and state *)
 Definition ChainValid (c : cfg) (st : mach) : Prop :=
